@@ -837,4 +837,76 @@ theorem covered_mkComp (f : FinDag) (hc : f.check = true) (exc : Nat → E) (l :
   rw [h0]
   exact List.mem_range.mpr (FinDag.member_lt f hc i hm)
 
+/-! ### kinds of raised objects -/
+
+/-- the raised object is still on its way (collected or raw), original kind `k` -/
+def Hand.carries (k : Kind) : Hand → Prop
+  | .collect k' _ => k' = k
+  | .raw k' _ => k' = k
+  | .gone => False
+
+theorem curKind_handled (c : KCfg) (k : Kind) (w : Nat) (hl : c.local k = true) (hc : c.callback k = true) :
+    c.local (curKind k w) = true ∧ c.callback (curKind k w) = true := by
+  unfold curKind
+  split
+  · exact ⟨hl, hc⟩
+  · exact ⟨rfl, rfl⟩
+
+theorem nodeOut_handled (c : KCfg) (e : Bool) (k : Kind) (w : Nat) (hl : c.local k = true) (hc : c.callback k = true) :
+    (nodeOut c e k w).1 = .failed ∧ (nodeOut c e k w).2.carries k := by
+  obtain ⟨h1, h2⟩ := curKind_handled c k w hl hc
+  unfold nodeOut
+  cases e
+  · by_cases hx : curKind k w = .exception
+    · simp [hx, Hand.carries]
+    · simp [hx, h1, Hand.carries]
+  · simp [h2, Hand.carries]
+
+theorem compOut_handled (c : KCfg) (e : Bool) (k : Kind) (h : Hand) (hl : c.local k = true) (hc : c.callback k = true)
+    (hh : h.carries k) : (compOut c e h).1 = .failed ∧ (compOut c e h).2.2.carries k := by
+  cases h with
+  | collect k' w => cases hh; exact nodeOut_handled c e k (w + 1) hl hc
+  | raw k' w => cases hh; exact nodeOut_handled c e k w hl hc
+  | gone => cases hh
+
+theorem climb_handled (c : KCfg) (k : Kind) (hl : c.local k = true) (hc : c.callback k = true) (execs : List Bool) :
+    ∀ o : KOut, (∀ s ∈ o.stats, s = .failed) → o.hand.carries k →
+      (∀ s ∈ (climb c execs o).stats, s = .failed) ∧ (climb c execs o).hand.carries k ∧
+      (climb c execs o).stats.length = o.stats.length + execs.length := by
+  induction execs with
+  | nil => intro o h1 h2; exact ⟨h1, h2, by simp [climb]⟩
+  | cons e rest ih =>
+    intro o h1 h2
+    obtain ⟨hs, hh⟩ := compOut_handled c e k o.hand hl hc h2
+    simp only [climb]
+    have := ih { stats := o.stats ++ [(compOut c e o.hand).1], aborted := o.aborted ++ [(compOut c e o.hand).2.1],
+                 hand := (compOut c e o.hand).2.2 } (by
+      intro s hs'
+      rcases List.mem_append.mp hs' with h | h
+      · exact h1 s h
+      · simp at h; rw [h]; exact hs) hh
+    refine ⟨this.1, this.2.1, ?_⟩
+    rw [this.2.2]; simp; omega
+
+/-- a kind both paths process: every node on the path ends failed, and the object reaches the caller -/
+theorem propagate_handled (c : KCfg) (k : Kind) (hl : c.local k = true) (hc : c.callback k = true) (execs : List Bool)
+    (hne : execs ≠ []) :
+    (∀ s ∈ (propagate c k execs).stats, s = .failed) ∧ (propagate c k execs).hand.carries k ∧
+    (propagate c k execs).stats.length = execs.length := by
+  cases execs with
+  | nil => exact absurd rfl hne
+  | cons e rest =>
+    obtain ⟨hs, hh⟩ := nodeOut_handled c e k 0 hl hc
+    have := climb_handled c k hl hc rest { stats := [(nodeOut c e k 0).1], aborted := [], hand := (nodeOut c e k 0).2 }
+      (by intro s h; simp at h; rw [h]; exact hs) hh
+    simp only [propagate]
+    refine ⟨this.1, this.2.1, ?_⟩
+    rw [this.2.2]; simp; omega
+
+theorem carries_caller (k : Kind) (h : Hand) (hh : h.carries k) : h.caller = .raw k ∨ ∃ n, h.caller = .chain k n := by
+  cases h with
+  | collect k' w => cases hh; cases w <;> simp [Hand.caller]
+  | raw k' w => cases hh; cases w <;> simp [Hand.caller]
+  | gone => cases hh
+
 end PwVerif.ExecNest
